@@ -223,6 +223,112 @@ theorem transform_batchable_roundtrip (opts : Opts R) (h : Dir → Coor R → Co
   injection hy with hy
   rw [← hx, ← hy, List.map_append]
 
+/-- one printed line: the first `dim` numbers of a tuple, each with `dec` decimals and a blank behind it -/
+def printLine (fmt : Nat → R → String) (dec dim : Nat) (c : Coor R) : String :=
+  let cols : List R :=
+    if dim == 1 then [c.c0] else if dim == 2 then [c.c0, c.c1]
+    else if dim == 3 then [c.c0, c.c1, c.c2] else [c.c0, c.c1, c.c2, c.c3]
+  String.join (cols.map fun v => fmt dec v ++ " ")
+
+/-- what `transform` prints for a batch when the library works tuple by tuple: the line of each tuple's image, in
+the direction asked for (**`--inv` applies the inverse**), **rounded to the requested decimals and cut to the
+requested dimension** -/
+theorem transform_lines (opts : Opts R) (h : Dir → Coor R → Coor R) (fmt : Nat → R → String)
+    (dec dim : Nat) (hd : opts.decimals = some dec) (hD : opts.dimension = some dim) (hr : opts.roundtrip = false)
+    (d : Nat) (xs : List (Coor R)) :
+    transform opts (fun dir data => (data.map (h dir), data.length)) fmt d xs =
+      some (xs.map fun x => printLine fmt dec dim (h (if opts.inverse then .inv else .fwd) x)) := by
+  cases xs with
+  | nil => simp [transform]
+  | cons x rest => simp [transform, hd, hD, hr, List.map_map, printLine, Function.comp_def]
+
+theorem transform_lines_batchable (opts : Opts R) (h : Dir → Coor R → Coor R) (fmt : Nat → R → String)
+    (dec dim : Nat) (hd : opts.decimals = some dec) (hD : opts.dimension = some dim) (hr : opts.roundtrip = false) :
+    Batchable (transform opts (fun dir data => (data.map (h dir), data.length)) fmt) := by
+  have key := transform_lines opts h fmt dec dim hd hD hr
+  refine ⟨fun d => by rw [key]; rfl, fun d xs => ⟨_, key d xs⟩, fun d d' xs => by rw [key, key], ?_⟩
+  intro d xs ys lx ly hx hy
+  rw [key] at hx hy ⊢
+  injection hx with hx
+  injection hy with hy
+  rw [← hx, ← hy, List.map_append]
+
+/-- **kp writes exactly one output line per coordinate line of input, in input order, whose numbers are the
+library's result for that line's tuple**: for every batch size and every spread of the lines over files, the
+output is the list of the printed images of the tuples of the coordinate lines, in the order of the input -/
+theorem kp_one_line_per_coordinate_line (opts : Opts R) (batch : Nat) (h : Dir → Coor R → Coor R) (fmt : Nat → R → String)
+    (dec dim : Nat) (hd : opts.decimals = some dec) (hD : opts.dimension = some dim) (hr : opts.roundtrip = false)
+    (files : List (List Str)) :
+    run opts batch (transform opts (fun dir data => (data.map (h dir), data.length)) fmt) (files.map some) =
+      ((allTuples opts files).map fun x => printLine fmt dec dim (h (if opts.inverse then .inv else .fwd) x), true) := by
+  obtain ⟨out, h1, h2⟩ := kp_batch_independent opts batch _ (transform_lines_batchable opts h fmt dec dim hd hD hr) files
+  rw [transform_lines opts h fmt dec dim hd hD hr] at h1
+  injection h1 with h1
+  rw [h2, h1]
+
+/-- ... as many lines as there are coordinate lines (lines that are neither blank nor comments) -/
+theorem kp_line_count (opts : Opts R) (batch : Nat) (h : Dir → Coor R → Coor R) (fmt : Nat → R → String)
+    (dec dim : Nat) (hd : opts.decimals = some dec) (hD : opts.dimension = some dim) (hr : opts.roundtrip = false)
+    (files : List (List Str)) :
+    (run opts batch (transform opts (fun dir data => (data.map (h dir), data.length)) fmt) (files.map some)).1.length =
+      (files.flatten.filter fun l => (parseLine opts l).isSome).length := by
+  rw [kp_one_line_per_coordinate_line opts batch h fmt dec dim hd hD hr]
+  simp only [List.length_map]
+  have e : ∀ f : List (List Str), (allTuples opts f).length = (f.flatten.filter fun l => (parseLine opts l).isSome).length := by
+    intro f
+    induction f with
+    | nil => rfl
+    | cons a t ih =>
+      have ha : (tuplesOf opts a).length = (a.filter fun l => (parseLine opts l).isSome).length := by
+        induction a with
+        | nil => rfl
+        | cons l r ihr =>
+          cases hp : parseLine opts l <;> simp_all [tuplesOf, List.filterMap_cons, List.filter_cons]
+      simp only [allTuples, List.flatMap_cons, List.length_append, List.flatten_cons, List.filter_append] at ih ⊢
+      rw [ha, ih]
+  exact e files
+
+/-- the value a word of a coordinate line stands for -/
+def wordValue (e : Str) : R :=
+  match Sexa.parse e with
+  | some x => Sexa.eval x
+  | none => Scalar.nan
+
+/-- the words of a line: split at white space, cut at the first word that starts a comment -/
+def wordsOf (line : Str) : List Str := (splitWs (trim line)).takeWhile fun a => !(startsWith (S "#") a)
+
+/-- **missing height and time default to 0 and NaN, or to the `-z` / `-t` values**: a line of two numbers -/
+theorem parseLine_two (opts : Opts R) (line a b : Str) (h : wordsOf line = [a, b]) :
+    parseLine opts line =
+      some (⟨wordValue a, wordValue b, opts.height.getD (wordValue (S "0")), opts.time.getD Scalar.nan⟩, 2) := by
+  have hn : Sexa.parse (S "NaN") = none := by decide
+  unfold wordsOf at h
+  simp only [parseLine, h]
+  cases opts.height <;> cases opts.time <;> simp [wordValue, hn] <;>
+    first | exact ⟨rfl, rfl, rfl⟩ | exact ⟨rfl, rfl⟩ | rfl
+
+/-- a line of three numbers: the height is the third one unless `-z` replaces it, the time defaults -/
+theorem parseLine_three (opts : Opts R) (line a b c : Str) (h : wordsOf line = [a, b, c]) :
+    parseLine opts line =
+      some (⟨wordValue a, wordValue b, opts.height.getD (wordValue c), opts.time.getD Scalar.nan⟩, 3) := by
+  have hn : Sexa.parse (S "NaN") = none := by decide
+  unfold wordsOf at h
+  simp only [parseLine, h]
+  cases opts.height <;> cases opts.time <;> simp [wordValue, hn] <;>
+    first | exact ⟨rfl, rfl, rfl⟩ | exact ⟨rfl, rfl⟩ | rfl
+
+/-- a line of four numbers (or more: the rest is ignored) -/
+theorem parseLine_four (opts : Opts R) (line a b c d : Str) (rest : List Str) (h : wordsOf line = a :: b :: c :: d :: rest) :
+    parseLine opts line =
+      some (⟨wordValue a, wordValue b, opts.height.getD (wordValue c), opts.time.getD (wordValue d)⟩, 4 + rest.length) := by
+  unfold wordsOf at h
+  simp only [parseLine, h]
+  cases opts.height <;> cases opts.time <;> simp [wordValue] <;>
+    first | exact ⟨⟨rfl, rfl, rfl, rfl⟩, by omega⟩ | exact ⟨⟨rfl, rfl, rfl⟩, by omega⟩ | exact ⟨⟨rfl, rfl⟩, by omega⟩ | omega
+
+example : wordsOf (S "  55 12 # Copenhagen") = [S "55", S "12"] := by decide
+example : wordsOf (S "55 12 100 2020.5 extra") = [S "55", S "12", S "100", S "2020.5", S "extra"] := by decide
+
 /-- the batch size of the source -/
 example : Gen.kpBatch = 25000 := by decide
 
